@@ -380,6 +380,56 @@ func C13(r *core.Run) {
 		}
 		emit(o)
 	})
+	// single-file form with files of the same stem beside the test file: whatever the command decides, a zero exit
+	// status means the test file is renumbered (or, with --check, was already in order)
+	sibs, d4 := core.Parallel(r, "siblings", spec, r.Workers, func(in in, shard, n int, emit func(allRes)) {
+		wd := filepath.Join(in.Dir, fmt.Sprint("s", shard))
+		var o allRes
+		idx := 0
+		for _, sib := range []string{"", "REQUEST-123-TEST/123456.bak", "REQUEST-123-TEST/123456.txt", "REQUEST-123-TEST/123456.json", "REQUEST-123-TEST/123456.yaml.orig", "ARCHIVE/123456.txt", "AAA/123456.yml.off", "ZZZ/123456.md"} {
+			for st := 0; st < 3; st++ {
+				for _, check := range []bool{false, true} {
+					if idx++; idx%n != shard {
+						continue
+					}
+					os.RemoveAll(wd)
+					t := miniCRS()
+					t["tests/regression/tests/REQUEST-123-TEST/123456.yaml"] = c13States[st][0]
+					if sib != "" {
+						t["tests/regression/tests/"+sib] = "tests:\n  - test_id: 44\n"
+					}
+					t.Materialise(wd)
+					args := []string{"-d", wd, "util", "renumber-tests"}
+					if check {
+						args = append(args, "--check")
+					}
+					res := core.RunCLI(r.Crs, wd, "", nil, append(args, "123456")...)
+					o.Runs++
+					b, _ := os.ReadFile(filepath.Join(wd, "tests/regression/tests/REQUEST-123-TEST/123456.yaml"))
+					where := fmt.Sprintf("sibling %q, file state %d, `%s 123456`: ", sib, st, strings.Join(args[2:], " "))
+					needs := c13States[st][0] != c13States[st][1]
+					switch {
+					case check && res.Exit == 0 && needs:
+						o.Bad = append(o.Bad, where+"--check exits 0 although the test file is not in order")
+					case check && string(b) != c13States[st][0]:
+						o.Bad = append(o.Bad, where+"--check changed the test file")
+					case !check && res.Exit == 0 && string(b) != c13States[st][1]:
+						o.Bad = append(o.Bad, where+fmt.Sprintf("exit 0 but the test file is %q, expected %q", b, c13States[st][1]))
+					case !check && res.Exit != 0 && string(b) != c13States[st][0]:
+						o.Bad = append(o.Bad, where+"the command fails but changed the test file")
+					}
+					if sib != "" {
+						if sb, _ := os.ReadFile(filepath.Join(wd, "tests/regression/tests", sib)); string(sb) != "tests:\n  - test_id: 44\n" {
+							o.Bad = append(o.Bad, where+"the sibling file was rewritten")
+						}
+					}
+				}
+			}
+		}
+		emit(o)
+	})
+	deaths = append(deaths, d4...)
+	alls = append(alls, sibs...)
 	deaths = append(deaths, d3...)
 	if r.IsWorker() {
 		return
